@@ -390,6 +390,16 @@ func (m *Machine) addViolation(v Violation) {
 	m.Violations = append(m.Violations, v)
 }
 
+// ResetAfterEngineError makes the machine usable for the next path after an internal panic
+// (goroutines of the failed path are shut down).
+func (m *Machine) ResetAfterEngineError() {
+	defer func() { recover() }()
+	if m.rt != nil && !m.rt.dead {
+		m.rtShutdown()
+	}
+	m.inSummary = false
+}
+
 // ViolCounts returns the number of failing paths per violation class.
 func (m *Machine) ViolCounts() map[string]int { return m.violSeen }
 
